@@ -13,7 +13,9 @@
 (***************************************************************************)
 EXTENDS Integers, Sequences, FiniteSets, TLC
 
-CONSTANTS Frames,     \* sequence of <<f, p>>: fixed and payload sizes of the frames in the stream
+CONSTANTS Frames,     \* sequence of <<f, p, kind>>: fixed and payload sizes of the frames in the stream; kind "msg", or
+                      \* "skip": a frame the receiver rejects after its header (unknown type) and whose f body bytes it
+                      \* discards with plain reads (io.Copy to Discard through a LimitReader) on either path
           Fixed       \* findings repaired: "R13"
 
 Dev(x) == x \notin Fixed
@@ -56,6 +58,22 @@ ReadHdr(st, have) ==
        ELSE IF r.eof /\ have + r.n < Hdr THEN [ok |-> FALSE, st |-> r.st]
        ELSE ReadHdr(r.st, have + r.n)
 
+\* Discarding n bytes: read after read, whatever each returns, until n are gone; the stream ending first is an error
+RECURSIVE Drain(_, _)
+Drain(st, n) ==
+  IF n = 0 THEN [ok |-> TRUE, st |-> st]
+  ELSE LET r == Read(st, n) IN
+       IF r.n = 0 /\ r.eof THEN [ok |-> FALSE, st |-> r.st]
+       ELSE IF r.eof /\ r.n < n THEN [ok |-> FALSE, st |-> r.st]
+       ELSE Drain(r.st, n - r.n)
+Skipped(pos) == <<pos, -1, -1>>
+RecvSkip(st, fr) ==
+  LET h == ReadHdr(st, 0) IN
+  IF ~h.ok THEN [ok |-> FALSE, st |-> h.st, parts |-> <<>>]
+  ELSE LET d == Drain(h.st, fr[1]) IN
+       IF ~d.ok THEN [ok |-> FALSE, st |-> d.st, parts |-> <<>>]
+       ELSE [ok |-> TRUE, st |-> d.st, parts |-> Skipped(st.pos)]
+
 \* One frame by the generic path: the positions where header / fixed / payload were taken from
 RecvGeneric(st, fr) ==
   LET h == ReadHdr(st, 0) IN
@@ -95,7 +113,8 @@ RecvLinux(st, fr) ==
 RECURSIVE RecvAll(_, _, _)
 RecvAll(st, i, path) ==
   IF i > Len(Frames) THEN <<>>
-  ELSE LET r == IF path = "generic" THEN RecvGeneric(st, Frames[i]) ELSE RecvLinux(st, Frames[i]) IN
+  ELSE LET r == IF Frames[i][3] = "skip" THEN RecvSkip(st, Frames[i])
+                ELSE IF path = "generic" THEN RecvGeneric(st, Frames[i]) ELSE RecvLinux(st, Frames[i]) IN
        IF ~r.ok THEN <<"err">>
        ELSE <<r.parts>> \o RecvAll(r.st, i + 1, path)
 
@@ -106,7 +125,8 @@ Expected(i, pos, avail) ==
   IF i > Len(Frames) THEN <<>>
   ELSE LET sz == Hdr + Frames[i][1] + Frames[i][2] IN
        IF pos + sz > avail THEN <<"err">>
-       ELSE <<<<pos, pos + Hdr, pos + Hdr + Frames[i][1]>>>> \o Expected(i + 1, pos + sz, avail)
+       ELSE <<IF Frames[i][3] = "skip" THEN Skipped(pos) ELSE <<pos, pos + Hdr, pos + Hdr + Frames[i][1]>>>>
+            \o Expected(i + 1, pos + sz, avail)
 
 VARIABLES chunks, mode, path
 vars == <<chunks, mode, path>>
